@@ -73,11 +73,11 @@ theorem skipErrStmt_terminates (c : Cfg) (hc : GoodCfg c) (fuel : Nat) (s : PS) 
   exact ⟨h.ne_outOfFuel, h.ne_panic⟩
 
 /-- the repaired configuration -/
-def fixedCfg : Cfg := ⟨20, BExp.fixed, false, true, true, some 10000⟩
+def fixedCfg : Cfg := ⟨20, BExp.fixed, false, true, true, some 10000, false⟩
 /-- the configuration of the pinned tree -/
-def pinnedCfg : Cfg := ⟨20, BExp.pinned, false, true, true, none⟩
+def pinnedCfg : Cfg := ⟨20, BExp.pinned, false, true, true, none, false⟩
 
-example : GoodCfg fixedCfg := ⟨by decide, by decide, by decide, by decide⟩
+example : GoodCfg fixedCfg := ⟨by decide, by decide, by decide, by decide, by decide⟩
 example : ¬ StopsAtEof pinnedCfg.skipCond := by decide
 
 /-- **The pinned `SkipErrStmt` diverges at EOF**: in error state, at EOF, with
@@ -138,13 +138,13 @@ example : ∀ fuel, parseValue { fixedCfg with listBreaks := false } fuel 0
     number of tokens not yet shifted; unless it ends in error state it shifted a token. -/
 theorem parseValue_terminates (c : Cfg) (hc : GoodCfg c) (fuel : Nat) (s : PS) (hm : s.m + 2 ≤ fuel) :
     ∃ s', parseValue c fuel 0 s = .ok s' ∧ s'.m ≤ s.m ∧ (s'.pe.jail = false → s'.m < s.m) := by
-  obtain ⟨s', h, h1, h2⟩ := parseValue_spec c hc.errMax_pos hc.listBreaks fuel 0 s hm
+  obtain ⟨s', h, h1, h2⟩ := parseValue_spec c hc.errMax_pos hc.listBreaks hc.signIterative fuel 0 s hm
   exact ⟨s', h, h1.m_le, h2⟩
 
 /-- **`parseSeries` terminates** on every token stream and ends at EOF. -/
 theorem parseSeries_terminates (c : Cfg) (hc : GoodCfg c) (fuel : Nat) (s : PS) (hm : s.m + 2 ≤ fuel) :
     ∃ r, parseSeries c fuel s = .ok r ∧ r.p.see .eof = true := by
-  obtain ⟨r, h, h1, _⟩ := parseSeries_spec c hc.errMax_pos hc.listBreaks hc.stops hc.skips fuel s hm
+  obtain ⟨r, h, h1, _⟩ := parseSeries_spec c hc.errMax_pos hc.listBreaks hc.signIterative hc.stops hc.skips fuel s hm
   exact ⟨r, h, h1⟩
 
 /-- **No error is lost**: `BailOut` and the cap of the error list never turn a
@@ -153,7 +153,7 @@ theorem parseSeries_terminates (c : Cfg) (hc : GoodCfg c) (fuel : Nat) (s : PS) 
 theorem series_value_means_clean (c : Cfg) (hc : GoodCfg c) (fuel : Nat) (s : PS) (hm : s.m + 2 ≤ fuel)
     (hinv : s.Inv) (p k : Nat) (b : Bool) (h : seriesToks c fuel s = .ok (.value p k b)) :
     ∃ r, parseSeries c fuel s = .ok r ∧ r.p.pe.ever = false ∧ r.p.le.ever = false := by
-  obtain ⟨r, hr, _, hi⟩ := parseSeries_spec c hc.errMax_pos hc.listBreaks hc.stops hc.skips fuel s hm
+  obtain ⟨r, hr, _, hi⟩ := parseSeries_spec c hc.errMax_pos hc.listBreaks hc.signIterative hc.stops hc.skips fuel s hm
   refine ⟨r, hr, ?_⟩
   unfold seriesToks at h
   rw [hr] at h
@@ -182,7 +182,7 @@ theorem unlimited_depth_unbounded (c : Cfg) (hc : GoodCfg c) (hn : c.depthLimit 
     ∃ s', parseValue c (k + 3) 0
         { cur := lbTok, rest := List.replicate k lbTok, eofLine := 1, eofCol := k + 1 } = .ok s' ∧
       k + 1 ≤ s'.maxDepth := by
-  obtain ⟨s', h, _⟩ := parseValue_spec c hc.errMax_pos hc.listBreaks (k + 3) 0
+  obtain ⟨s', h, _⟩ := parseValue_spec c hc.errMax_pos hc.listBreaks hc.signIterative (k + 3) 0
     { cur := lbTok, rest := List.replicate k lbTok, eofLine := 1, eofCol := k + 1 }
     (by simp [PS.m, lbTok])
   refine ⟨s', h, ?_⟩
@@ -191,13 +191,85 @@ theorem unlimited_depth_unbounded (c : Cfg) (hc : GoodCfg c) (hn : c.depthLimit 
 
 example : ∃ s', parseValue { fixedCfg with depthLimit := none } 5 0
     { cur := lbTok, rest := [lbTok, lbTok], eofLine := 1, eofCol := 3 } = .ok s' ∧ 3 ≤ s'.maxDepth :=
-  unlimited_depth_unbounded _ ⟨by decide, by decide, by decide, by decide⟩ rfl 2
+  unlimited_depth_unbounded _ ⟨by decide, by decide, by decide, by decide, by decide⟩ rfl 2
 
 -- with limit 2 the third bracket is refused: [[[
 example : toJSON { fixedCfg with depthLimit := some 2 } ⟨[45], knownKeywords⟩ (fuelOf 3) [0x5b, 0x5b, 0x5b] =
     .ok (.errors 1 ⟨"jsonx.tooDeep", 1, 3⟩ 3) := by decide
 example : parseDepth { fixedCfg with depthLimit := some 2 } ⟨[45], knownKeywords⟩ (fuelOf 3) [0x5b, 0x5b, 0x5b] false =
     .ok 2 := by decide
+
+/-! ## runs of unary signs -/
+
+/-- the token `-` -/
+def minusTok : Tok := { kind := .op, op := 45 }
+
+/-- **A sign costs no recursion level**: with the sign case as in the source
+    (it looks at the next token itself and does not call `parseValue`), a value
+    that starts with a sign is parsed by the outermost call alone — fuel 1,
+    i.e. no nested `parseValue` at all — whatever follows, in particular a run
+    of any number of signs.  The nesting limit does not count signs, so the
+    stack bound of `depth_bounded` rests on this fact (`gen_sign_case_iterative`). -/
+theorem sign_case_no_recursion (c : Cfg) (hs : c.signRecursive = false) (d : Nat) (s : PS)
+    (hcur : (s.seeOp '+' || s.seeOp '-') = true) : ∃ s', parseValue c 1 d s = .ok s' := by
+  have hk : s.cur.kind = .op := by
+    rcases hx : s.seeOp '+' with _ | _
+    · rw [hx] at hcur
+      have : s.seeOp '-' = true := by simpa using hcur
+      simp [PS.seeOp] at this; exact this.1
+    · simp [PS.seeOp] at hx; exact hx.1
+  have h1 : s.see .keyword = false := by simp [PS.see, hk]
+  have h2 : s.see .str = false := by simp [PS.see, hk]
+  have h3 : s.see .int = false := by simp [PS.see, hk]
+  have h4 : s.see .float = false := by simp [PS.see, hk]
+  unfold parseValue
+  simp only [h1, h2, h3, h4, hcur, hs, Bool.false_eq_true, if_false, if_true]
+  split
+  · exact ⟨_, rfl⟩
+  · split
+    · exact ⟨_, rfl⟩
+    · exact ⟨_, rfl⟩
+
+/-- **With a recursive sign case every sign is a recursion level** that the
+    nesting limit does not see: a run of `k+1` signs exhausts fuel `k+1`
+    (recursion depth `k+1`), for every `k` and every nesting limit. -/
+theorem recursive_sign_run_unbounded (c : Cfg) (hs : c.signRecursive = true) (d : Nat) :
+    ∀ k (s : PS), s.seeOp '-' = true → s.rest = List.replicate k minusTok →
+      parseValue c (k + 1) d s = .outOfFuel := by
+  intro k
+  induction k with
+  | zero =>
+    intro s hcur hrest
+    have hk : s.cur.kind = .op ∧ s.cur.op = 45 := by simpa [PS.seeOp] using hcur
+    have h1 : s.see .keyword = false := by simp [PS.see, hk.1]
+    have h2 : s.see .str = false := by simp [PS.see, hk.1]
+    have h3 : s.see .int = false := by simp [PS.see, hk.1]
+    have h4 : s.see .float = false := by simp [PS.see, hk.1]
+    unfold parseValue
+    simp only [h1, h2, h3, h4, hcur, hs, Bool.or_true, Bool.false_eq_true, if_false, if_true]
+    rfl
+  | succ k ih =>
+    intro s hcur hrest
+    have hk : s.cur.kind = .op ∧ s.cur.op = 45 := by simpa [PS.seeOp] using hcur
+    have h1 : s.see .keyword = false := by simp [PS.see, hk.1]
+    have h2 : s.see .str = false := by simp [PS.see, hk.1]
+    have h3 : s.see .int = false := by simp [PS.see, hk.1]
+    have h4 : s.see .float = false := by simp [PS.see, hk.1]
+    have hcur1 : (s.next c).seeOp '-' = true := by
+      simp [PS.seeOp, PS.next, hrest, List.replicate_succ, nextTok, minusTok]
+    have hrest1 : (s.next c).rest = List.replicate k minusTok := by
+      simp [PS.next, hrest, List.replicate_succ, nextTok, minusTok]
+    unfold parseValue
+    simp only [h1, h2, h3, h4, hcur, hs, Bool.or_true, Bool.false_eq_true, if_false, if_true]
+    rw [ih (s.next c) hcur1 hrest1]
+    rfl
+
+example : ∃ s', parseValue fixedCfg 1 0
+    { cur := minusTok, rest := List.replicate 5 minusTok, eofLine := 1, eofCol := 6 } = .ok s' :=
+  sign_case_no_recursion _ rfl 0 _ (by decide)
+example : parseValue { fixedCfg with signRecursive := true } 6 0
+    { cur := minusTok, rest := List.replicate 5 minusTok, eofLine := 1, eofCol := 6 } = .outOfFuel :=
+  recursive_sign_run_unbounded _ rfl 0 5 _ (by decide) rfl
 
 /-! ## the entry points, for every byte string -/
 
@@ -248,10 +320,10 @@ theorem depth_bounded (l : Nat) (hl : c.depthLimit = some l) (bs : Bytes) (serie
   have h0 : (PS.init c r.1 r.2.1 r.2.2).maxDepth ≤ l := Nat.zero_le _
   simp only
   split
-  · obtain ⟨x, hx, _⟩ := parseSeries_spec c hc.errMax_pos hc.listBreaks hc.stops hc.skips _ _ hm
+  · obtain ⟨x, hx, _⟩ := parseSeries_spec c hc.errMax_pos hc.listBreaks hc.signIterative hc.stops hc.skips _ _ hm
     rw [hx]
     exact ⟨_, rfl, series_depth_bounded c l hl _ _ x h0 hx⟩
-  · obtain ⟨x, hx, _⟩ := parseValue_spec c hc.errMax_pos hc.listBreaks _ 0 _ hm
+  · obtain ⟨x, hx, _⟩ := parseValue_spec c hc.errMax_pos hc.listBreaks hc.signIterative _ 0 _ hm
     rw [hx]
     exact ⟨_, rfl, parse_depth_bounded c l hl _ _ x h0 hx⟩
 
